@@ -44,6 +44,8 @@ DefStream ==
      wantAt   |-> 0,
      wantFl   |-> FALSE,    \* a flush completed after the reset call
      cleanAtWant |-> FALSE, \* stream was already closed cleanly when the call was made
+     rstInCode |-> -1,      \* code of the peer's RST_STREAM (-2: not representable)
+     wantAfterPeerRst |-> FALSE,   \* send_reset() was called when the peer's RST_STREAM had already been processed: it must not replace the peer's error
      apiCleanAtWant |-> FALSE,  \* ... or complete for the application (its END_STREAM accepted but not written yet): RST_STREAM neither owed nor forbidden
      sendDrop |-> FALSE, recvDrop |-> FALSE, respDrop |-> FALSE,
      apiEos   |-> FALSE,    \* the application finished its send side (eos / trailers)
@@ -475,7 +477,8 @@ StepIn(m, f, l) ==
                    ELSE m2
          IN m3
     ELSE IF ty = "RST_STREAM" /\ ok /\ s # 0
-    THEN [SetS(mm, s, [x EXCEPT !.i = "rst", !.rdead = TRUE, !.hdrPending = FALSE])
+    THEN [SetS(mm, s, [x EXCEPT !.i = "rst", !.rdead = TRUE, !.hdrPending = FALSE,
+                                !.rstInCode = IF x.i = "rst" THEN x.rstInCode ELSE IF f.ch < 32768 THEN f.ch * 65536 + f.cl ELSE -2])
             EXCEPT !.pend = Append(m.pend, [k |-> "rst", sid |-> s, stage |-> 0])]
     ELSE IF ty = "GOAWAY" /\ ok
     THEN [mm EXCEPT !.goIn = IF m.goIn < 0 THEN f.last ELSE Min(m.goIn, f.last),
@@ -516,11 +519,17 @@ StepApi(m, e, l) ==
         x == S(m, s)
         c == e.call
     IN
-    IF c = "send_reset" /\ s # 0
+    \* C17: an error of the peer surfaces intact - a local reset made after the peer's RST_STREAM was processed does not replace it
+    IF s # 0 /\ x.wantAfterPeerRst /\ x.i = "rst" /\ x.rstInCode # x.wantCode
+       /\ \/ (e.res = "err" /\ e.e.kind = "reset" /\ ~e.e.remote /\ ~e.e.library)
+          \/ (c = "poll_reset" /\ e.res = "ok" /\ x.wantCode >= 0 /\ e.ch < 32768 /\ e.ch * 65536 + e.cl = x.wantCode)
+    THEN Viol(Hit(m, "C17.peer_reset_overridden"), "C17.peer_reset_overridden", l, s, <<c, e.res>>)
+    ELSE IF c = "send_reset" /\ s # 0
     THEN SetS(m, s, [x EXCEPT !.want = IF x.want = "" THEN "reset" ELSE x.want,
                               !.wantCode = IF x.want = "" THEN (IF e.ch < 32768 THEN e.ch * 65536 + e.cl ELSE -2) ELSE x.wantCode,
                               !.wantAt = l,
                               !.cleanAtWant = IF x.want = "" THEN StreamClosedClean(x) ELSE x.cleanAtWant,
+                              !.wantAfterPeerRst = IF x.want = "" THEN x.rstBound ELSE x.wantAfterPeerRst,
                               !.apiCleanAtWant = IF x.want = "" THEN (x.i = "es" /\ x.apiEos /\ x.o # "es") ELSE x.apiCleanAtWant,
                               !.wantBeforeOpen = IF x.want = "" THEN x.o = "idle" ELSE x.wantBeforeOpen,
                               !.inSince = IF x.want = "" THEN 0 ELSE x.inSince,
